@@ -42,7 +42,9 @@ RULE = ("battery: topology (1-4 inverters; 1:1, one inverter with two batteries,
         "request inside/beyond/zero/positive x outcome per call; non-trivial = at least one call failed or excess != 0; "
         "concurrent: 2-3 such PV requests over disjoint inverter sets / 2 battery requests over disjoint groups of one "
         "manager, later ones arriving 0 us - 4.9995 s after the first while its calls are pending, each result checked "
-        "against its own request; "
+        "against its own request; also two battery requests with different but OVERLAPPING battery sets (both command the "
+        "shared inverter; the earlier call there mostly fails / times out after the later set-point was sent), calls "
+        "attributed to their request through a context variable; "
         "bounded-exhaustive: all 5^n outcome vectors for n <= 2 (quick) / n <= 4 (thorough); distinct by JSON hash")
 
 BAT_TOPOLOGIES = [
@@ -184,6 +186,40 @@ def gen_concurrent_battery(rng: random.Random) -> dict:
         sub["at_us"] = 0 if n == 0 else rng.choice(AT_US)
         reqs.append(sub)
     return {"kind": "concurrent", "mgr": "battery", "topo": grid, "data": None, "reqs": reqs, "exact": True}
+
+
+def gen_concurrent_battery_overlap(rng: random.Random) -> dict:
+    """Two battery pools with DIFFERENT BUT OVERLAPPING battery sets (the actor serialises identical sets only): both
+    requests command the shared inverter(s); the earlier one's call there is still pending — and mostly fails or times
+    out — when the later request sends its own, different set-point."""
+    grid = rng.choice([BAT_TOPOLOGIES[1], BAT_TOPOLOGIES[2], BAT_TOPOLOGIES[3]])
+    n = len(grid)
+    a = rng.randint(2, n)
+    first = grid[:a]
+    lo = rng.randint(0, a - 1)
+    second = grid[lo:rng.randint(lo + 1, n)]
+    if second == first:
+        second = first[:-1]
+    shared = [i for i, _ in first if i in {j for j, _ in second}]
+    order = [first, second] if rng.random() < 0.7 else [second, first]
+    reqs = []
+    for k, topo in enumerate(order):
+        sub = gen_battery_stub(rng, topo)
+        invs = [i for i, _ in topo]
+        have = {i for i, _ in sub["stub"]["dist"]}
+        for i in shared:  # the shared inverter is commanded by both, with different set-points
+            if i not in have:
+                sub["stub"]["dist"].append([i, rat(Fraction(rng.choice(LATTICE_W)) + k)])
+        total = sum(Fraction(w) for _, w in sub["stub"]["dist"]) + Fraction(sub["stub"]["remaining"])
+        sub["P"], sub["conserving"] = rat(total), True
+        sub["calls"] = {c: v for c, v in sub["calls"].items() if int(c) in invs}
+        if k == 0 and rng.random() < 0.8:
+            kind = rng.choice(["clientError", "outOfRange", "exception", "timeout", "ok"])
+            sub["calls"][str(rng.choice(shared))] = {"kind": kind, "delay": 0 if kind == "timeout" else
+                                                     rng.choice([1_000_000, 2_500_000, 4_999_000, 7_000_000])}
+        sub["at_us"] = 0 if k == 0 else rng.choice([0, 500, 1000, 500_000, 1_000_000, 2_499_000, 4_999_500])
+        reqs.append(sub)
+    return {"kind": "concurrent", "mgr": "battery", "overlap": True, "topo": grid, "data": None, "reqs": reqs, "exact": True}
 
 
 def pending_us(sub: dict) -> int:
@@ -348,6 +384,11 @@ class Batch:
             tags.add("concurrent:arrival-while-calls-pending")
         if any(Fraction(r["P"]) > 0 for r in case["reqs"]) and any(Fraction(r["P"]) < 0 for r in case["reqs"]):
             tags.add("concurrent:mixed-signs")
+        if case.get("overlap"):
+            tags.add("concurrent:overlapping-sets")
+        if obs.get("unattributed_calls"):
+            self.ctx.violation("cover", case, {"why": f"{obs['unattributed_calls']} set_power call(s) made outside any of the "
+                                                      "requests", "observed": obs})
         if obs["stray_results"]:
             self.ctx.violation("no-result", case, {"why": f"{obs['stray_results']} result(s) that belong to none of the "
                                                           "requests (or a second result for one request)", "observed": obs})
@@ -444,7 +485,8 @@ def run(ctx: Ctx) -> None:
         rng = ctx.subrng("case", k)
         x = k % 10
         if k % 5 == 0:
-            cases.append(gen_concurrent_pv(rng) if k % 10 == 0 else gen_concurrent_battery(rng))
+            cases.append(gen_concurrent_pv(rng) if k % 10 == 0 else
+                         (gen_concurrent_battery_overlap(rng) if k % 20 == 5 else gen_concurrent_battery(rng)))
         elif x < 4:
             cases.append(gen_pv(rng))
         elif x < 8:
